@@ -1060,6 +1060,45 @@ def _inv(e, st, node, M):
     return e.new_obj(st, Arr(Z, m.shape, 'real', meta={'inverse_of': m}))
 
 
+@prim('np.argsort')
+def _argsort(e, st, node, x, axis=None, kind=None):
+    """indices that sort x in non-decreasing order: a permutation of 0..n-1 (trusted)"""
+    a = e.deref(st, x)
+    if not (isinstance(a, Arr) and a.ndim == 1):
+        raise Unsupported('argsort form')
+    n = a.shape[0]
+    O = e.fresh('order', e.arr_sort('int'))
+    INV = e.fresh_fn('order_inv', [z3.IntSort()], z3.IntSort())
+    i, j = e.L.var('q'), e.L.var('q')
+    st.pc += [z3.ForAll([i], z3.Implies(z3.And(i >= 0, i < n), z3.And(z3.Select(O, i) >= 0, z3.Select(O, i) < n, INV(z3.Select(O, i)) == i))),
+              z3.ForAll([i], z3.Implies(z3.And(i >= 0, i < n), z3.And(INV(i) >= 0, INV(i) < n, z3.Select(O, INV(i)) == i))),       # a permutation
+              z3.ForAll([i, j], z3.Implies(z3.And(i >= 0, i <= j, j < n), a[z3.Select(O, i)] <= a[z3.Select(O, j)]))]               # sorted
+    return e.new_obj(st, Arr(O, (n,), 'int', meta={'distinct': True}))
+
+
+@prim('np.real')
+def _real(e, st, node, x):
+    """real part: the executor's numbers are reals (complex eigenpairs are outside the model: assumed real)"""
+    return x
+
+
+@prim('scipy.linalg.eig', 'np.linalg.eig')
+def _eig(e, st, node, M, left=None, right=None):
+    """eigen-decomposition (trusted LAPACK): fresh values / vectors related to M by the ghost predicate EIGENPAIRS_OF(M, vals, vecs)
+    (column k of vecs is an eigenvector of M for vals[k]); values assumed real"""
+    m = e.deref(st, M)
+    if not (isinstance(m, Arr) and m.ndim == 2):
+        raise Unsupported('eig form')
+    e.emit(e.site('shape', node), st, m.shape[0] == m.shape[1])
+    mt = m.term if m.kind == 'real' else e.lam(lambda i_, j_: e.num(m[i_, j_], 'real'), m.shape, 'real').term
+    # the solver's output as (uninterpreted) functions of the matrix: contracts can name them without quantifying over them
+    vals = z3.Function('EIGVALS', mt.sort(), e.arr_sort('real'))(mt)
+    vecs = z3.Function('EIGVECS', mt.sort(), e.arr_sort('real', 2))(mt)
+    rel = z3.Function('EIGENPAIRS_OF', mt.sort(), vals.sort(), vecs.sort(), z3.BoolSort())
+    st.pc.append(rel(mt, vals, vecs))
+    return Tup([e.new_obj(st, Arr(vals, (m.shape[0],), 'real', meta={'eig_of': m})), e.new_obj(st, Arr(vecs, (m.shape[0], m.shape[0]), 'real', meta={'eig_of': m}))])
+
+
 @prim('np.diag')
 def _diag(e, st, node, M):
     m = e.deref(st, M)
